@@ -45,6 +45,7 @@ type Config struct {
 	ConstMapNonStringKeys    bool // every file gets a constant map<i32,string> / map<bool,..> with entries
 	ArgModifiers             bool // method arguments written with optional / required and with defaults
 	DefaultsFromConstants    bool // field defaults that name a constant of the same file (container and base types)
+	EnumNonAscending         bool // enums whose explicit numbers are not ascending, followed by members without a number
 }
 
 // keyword lists of the stress classes TargetKeywordNames / GeneratorInternalNames
@@ -459,6 +460,30 @@ func (g *gen) genFile(f *File, root bool) {
 func (g *gen) genEnum() *Enum {
 	e := &Enum{Comment: g.comment(), Name: g.typeName(), Ann: g.annotations()}
 	vn := newNamer(g.rng)
+	if g.cfg.EnumNonAscending && g.rng.Intn(2) == 0 {
+		// HIGH = 7, LOW = 2, NEXT, LAST = 4, MORE: distinct explicit numbers in a
+		// non-ascending order, members without a number in between and after.
+		// Frugal numbers such a member one past the highest number seen so
+		// far; that rule is what the model records.
+		g.feat("enum_non_ascending_explicit")
+		explicit := g.rng.Perm(9)[:2+g.rng.Intn(3)]
+		if explicit[0] < explicit[1] {
+			explicit[0], explicit[1] = explicit[1], explicit[0]
+		}
+		max := -1
+		for k, x := range explicit {
+			x *= 3 // multiples of 3: a number given implicitly (max+1, max+2) never equals a later explicit one
+			e.Values = append(e.Values, &EnumValue{Name: vn.make(3, 1), Value: x, Explicit: true})
+			if x > max {
+				max = x
+			}
+			if k >= 1 && g.rng.Intn(2) == 0 || k == len(explicit)-1 {
+				max++
+				e.Values = append(e.Values, &EnumValue{Name: vn.make(3, 1), Value: max})
+			}
+		}
+		return e
+	}
 	n := 1 + g.rng.Intn(5)
 	mode := g.rng.Intn(3) // 0 implicit, 1 all explicit, 2 mixed
 	next := 0
